@@ -214,7 +214,7 @@ func request(variant string, evs []memEv, caps []int) string {
 }
 
 func c09(c *Ctx) {
-	c.Rule = "histories of 1..8 frames on one connection (escape-free and escaped frames, equal and unequal lengths, unfragmented and sub-packaged with completion, both versions) cut into reads: for 2..4 frames every subset of the cut points {every frame end, the middle of every frame} exhaustively, plus random cuts, several frames per read, byte-wise reads, the pattern 'one frame split over two reads, then two frames in one read'; one reused 1023-byte buffer; every delivered message is rendered again after every later read and after the close. A case is non-trivial when at least one message is delivered before the last read; distinct = distinct request lines"
+	c.Rule = "histories of 1..8 frames on one connection (escape-free and escaped frames, equal and unequal lengths, unfragmented and sub-packaged with completion, both versions) cut into reads: for 2..4 frames (6 randomly drawn frame sets per length in the quick tier, 40 in the thorough tier: the exhaustive flag refers to the cut patterns, not to the frames) every subset of the cut points {every frame end, the middle of every frame}, plus random cuts, several frames per read, byte-wise reads, the pattern 'one frame split over two reads, then two frames in one read'; one reused 1023-byte buffer; every delivered message is rendered again after every later read and after the close. A case is non-trivial when at least one message is delivered before the last read; distinct = distinct request lines"
 	rng := c.Rng
 	quick := c.Quick()
 	variant := os.Getenv("VERIF_C09_VARIANT")
